@@ -27,7 +27,8 @@ EXPLANATION = (
     " ROUNDS 5-6: C07.R5-EQUALS-STRUCTURAL is shared (a length read off a parameter type is the caller's only if the coercion compared every dimension)."
     " ROUND 7: R2-MEMBER-PADDING: in align_struct every member of known size is padded to its own alignment unconditionally before its size is added."
     " ROUND 8: R10-PASS-KEEPS-NODE: every arm of the rewriting passes before the typer and after it (constness, function_calls, mutability, syntax, the two scoper passes; 171 arms) evaluates to self, the same variant rebuilt with the arm's own operator, or a Poison (an operator dropped in constant initialisers only makes a constant differ from the same expression in a function)."
-    " ROUND 9: R11-LENGTH-NOT-NARROWED: of the narrowing `as` casts of the generator (31 counted) none takes an array length; R10 has a struct mode (rebuild on every path or on none).")
+    " ROUND 9: R11-LENGTH-NOT-NARROWED: of the narrowing `as` casts of the generator (31 counted) none takes an array length; R10 has a struct mode (rebuild on every path or on none)."
+    " ROUND 10: C12.R3-COMPILER-RESET is shared: named lengths live in the per-module typer, which a second module must get fresh.")
 
 VT = "alpha::value_type::ValueType::"
 
